@@ -333,10 +333,15 @@ theorem fromClient_mono (a b : List (Bytes × Bytes)) (hab : ∀ p ∈ a, p ∈ 
   rintro k v ⟨p, hp, h1, h2⟩
   exact ⟨p, hab p hp, h1, h2⟩
 
+theorem fromIncoming_flat (md : MD) : ESrc (fromIncoming md) (FromClient (flatten md)) := by
+  refine esrc_mono _ _ (FromClient (flatten md)) (fromIncoming_src md) ?_
+  rintro k v ⟨e, he, hk, hv⟩
+  exact ⟨(e.1, v), mem_flatten md e v he hv, hk, rfl⟩
+
 /-- every value an entry point offers the filter under key `k` was sent by the client under a name
     equal to `k` up to ASCII case -/
 theorem toCtxMD_src (en : Entry) (r : Request) :
-    ESrc (fromIncoming (toCtxMD en r)) (FromClient (items en r)) := by
+    ESrc (fromIncoming (toCtxMD en r)) (FromClient (wireItems en r)) := by
   cases en with
   | http => exact fromIncoming_client _ _ (headersToMD_client r.hdr)
   | grpcweb => exact fromIncoming_client _ _ (headersToMD_client r.hdr)
@@ -356,10 +361,142 @@ theorem toCtxMD_src (en : Entry) (r : Request) :
     obtain ⟨p, hp, h1, h2⟩ := mimeHeader_src r.lines e he v hv
     exact ⟨p, hp, by rw [← hk, ← h1, lower_canonKey], h2.symm⟩
   | proxy =>
-    show ESrc (fromIncoming r.hdr) (FromClient (flatten r.hdr))
-    refine esrc_mono _ _ (FromClient (flatten r.hdr)) (fromIncoming_src r.hdr) ?_
-    rintro k v ⟨e, he, hk, hv⟩
-    exact ⟨(e.1, v), mem_flatten r.hdr e v he hv, hk, rfl⟩
+    show ESrc (fromIncoming (if r.normalise then wireFormMetadata r.hdr else r.hdr))
+      (FromClient (if r.normalise then flatten (wireFormMetadata r.hdr) else flatten r.hdr))
+    cases r.normalise
+    · exact fromIncoming_flat r.hdr
+    · exact fromIncoming_flat (wireFormMetadata r.hdr)
+
+/-! ### base64: decode ∘ encode = id -/
+
+set_option maxRecDepth 100000 in
+theorem b64val_char_all : ∀ n, n < 64 → b64val (b64char n) = some n := by decide
+
+theorem b64val_char (n : Nat) (h : n < 64) : b64val (b64char n) = some n := b64val_char_all n h
+
+theorem dec_step (n : Nat) (h : n < 64) (rest : Bytes) (acc : List Nat) (hl : acc.length ≠ 3) :
+    b64dec true (b64char n :: rest) acc = b64dec true rest (acc ++ [n]) := by
+  rw [b64dec]
+  simp [b64val_char n h, hl]
+
+theorem dec_step4 (n : Nat) (h : n < 64) (rest : Bytes) (acc : List Nat) (hl : acc.length = 3) :
+    b64dec true (b64char n :: rest) acc = (b64dec true rest []).map (emitQ (acc ++ [n]) ++ ·) := by
+  rw [b64dec]
+  simp [b64val_char n h, hl]
+
+theorem emit4 (a b d : UInt8) :
+    emitQ [a.toNat / 4, a.toNat % 4 * 16 + b.toNat / 16, b.toNat % 16 * 4 + d.toNat / 64, d.toNat % 64] = [a, b, d] := by
+  have ha := UInt8.toNat_lt a; have hb := UInt8.toNat_lt b; have hd := UInt8.toNat_lt d
+  simp only [emitQ, List.getD_cons_zero, List.getD_cons_succ, List.length_cons, List.length_nil]
+  have e0 : ((a.toNat / 4) * 262144 + (a.toNat % 4 * 16 + b.toNat / 16) * 4096 + (b.toNat % 16 * 4 + d.toNat / 64) * 64 + d.toNat % 64) / 65536 % 256 = a.toNat := by omega
+  have e1 : ((a.toNat / 4) * 262144 + (a.toNat % 4 * 16 + b.toNat / 16) * 4096 + (b.toNat % 16 * 4 + d.toNat / 64) * 64 + d.toNat % 64) / 256 % 256 = b.toNat := by omega
+  have e2 : ((a.toNat / 4) * 262144 + (a.toNat % 4 * 16 + b.toNat / 16) * 4096 + (b.toNat % 16 * 4 + d.toNat / 64) * 64 + d.toNat % 64) % 256 = d.toNat := by omega
+  simp [e0, e1, e2]
+
+theorem emit2 (a : UInt8) : emitQ [a.toNat / 4, a.toNat % 4 * 16] = [a] := by
+  have ha := UInt8.toNat_lt a
+  simp only [emitQ, List.getD_cons_zero, List.getD_cons_succ, List.length_cons, List.length_nil, List.getD_nil]
+  have e0 : (a.toNat / 4 * 262144 + a.toNat % 4 * 16 * 4096) / 65536 % 256 = a.toNat := by omega
+  simp [e0]
+
+theorem emit3 (a b : UInt8) : emitQ [a.toNat / 4, a.toNat % 4 * 16 + b.toNat / 16, b.toNat % 16 * 4] = [a, b] := by
+  have ha := UInt8.toNat_lt a; have hb := UInt8.toNat_lt b
+  simp only [emitQ, List.getD_cons_zero, List.getD_cons_succ, List.length_cons, List.length_nil, List.getD_nil]
+  have e0 : (a.toNat / 4 * 262144 + (a.toNat % 4 * 16 + b.toNat / 16) * 4096 + b.toNat % 16 * 4 * 64) / 65536 % 256 = a.toNat := by omega
+  have e1 : (a.toNat / 4 * 262144 + (a.toNat % 4 * 16 + b.toNat / 16) * 4096 + b.toNat % 16 * 4 * 64) / 256 % 256 = b.toNat := by omega
+  simp [e0, e1]
+
+/-- `StdEncoding.DecodeString(StdEncoding.EncodeToString(b)) = b` for EVERY byte string -/
+theorem b64_roundtrip (bs : Bytes) : b64dec true (encodeStd bs) [] = some bs := by
+  induction bs using encodeStd.induct with
+  | case1 => simp [encodeStd, b64dec]
+  | case2 a =>
+    have ha := UInt8.toNat_lt a
+    simp only [encodeStd]
+    rw [dec_step _ (by omega) _ _ (by simp), dec_step _ (by omega) _ _ (by simp)]
+    rw [b64dec]
+    simp [b64val, isNL, skipNL, emit2]
+  | case3 a b =>
+    have ha := UInt8.toNat_lt a; have hb := UInt8.toNat_lt b
+    simp only [encodeStd]
+    rw [dec_step _ (by omega) _ _ (by simp), dec_step _ (by omega) _ _ (by simp), dec_step _ (by omega) _ _ (by simp)]
+    rw [b64dec]
+    simp [b64val, isNL, skipNL, emit3]
+  | case4 a b d rest ih =>
+    have ha := UInt8.toNat_lt a; have hb := UInt8.toNat_lt b; have hd := UInt8.toNat_lt d
+    simp only [encodeStd]
+    rw [dec_step _ (by omega) _ _ (by simp), dec_step _ (by omega) _ _ (by simp), dec_step _ (by omega) _ _ (by simp),
+      dec_step4 _ (by omega) _ _ (by simp), ih]
+    simp [emit4]
+
+theorem encodeStd_length (bs : Bytes) : (encodeStd bs).length % 4 = 0 := by
+  induction bs using encodeStd.induct with
+  | case1 => simp [encodeStd]
+  | case2 a => simp [encodeStd]
+  | case3 a b => simp [encodeStd]
+  | case4 a b d rest ih => simp only [encodeStd, List.length_cons]; omega
+
+/-- `decodeBinHeader(base64.StdEncoding.EncodeToString(b)) = b` for EVERY byte string `b` -/
+theorem decodeBin_encodeStd (bs : Bytes) : decodeBinHeader (encodeStd bs) = some bs := by
+  unfold decodeBinHeader
+  simp [encodeStd_length, b64_roundtrip]
+
+
+/-! ### the proxy entry's normalisation -/
+
+theorem lower_drop (k : Bytes) (n : Nat) : lower (k.drop n) = (lower k).drop n := by
+  unfold lower; exact List.map_drop
+
+theorem lower_length (k : Bytes) : (lower k).length = k.length := by unfold lower; simp
+
+theorem grpcBin_lower (k : Bytes) : grpcBin (lower k) = grpcBin k := by
+  unfold grpcBin equalFold
+  rw [lower_length, ← lower_drop, lower_lower, lower_length]
+
+theorem grpcBin_congr (k a : Bytes) (h : lower k = lower a) : grpcBin k = grpcBin a := by
+  rw [← grpcBin_lower k, ← grpcBin_lower a, h]
+
+/-- a wire-form item is a client item, its value `StdEncoding`-encoded iff the key is binary for grpc-go -/
+theorem mem_flatten_wire (md : MD) (p : Bytes × Bytes) (h : p ∈ flatten (wireFormMetadata md)) :
+    ∃ w, (p.1, w) ∈ flatten md ∧ p.2 = if grpcBin p.1 then encodeStd w else w := by
+  unfold flatten wireFormMetadata at h
+  obtain ⟨e', he', hp⟩ := List.mem_flatMap.1 h
+  obtain ⟨e, he, rfl⟩ := List.mem_map.1 he'
+  obtain ⟨v, hv, rfl⟩ := List.mem_map.1 hp
+  by_cases hb : grpcBin e.1 = true
+  · simp only [hb, ↓reduceIte] at hv ⊢
+    obtain ⟨w, hw, rfl⟩ := List.mem_map.1 hv
+    exact ⟨w, mem_flatten md e w he hw, rfl⟩
+  · simp only [hb, Bool.false_eq_true, ↓reduceIte] at hv ⊢
+    exact ⟨v, mem_flatten md e v he hv, rfl⟩
+
+theorem binSuffix_ne_timeout (k : Bytes) (h : hasBinSuffix k = true) : lower k ≠ timeoutKey := by
+  intro hk
+  unfold hasBinSuffix equalFold at h
+  simp only [Bool.and_eq_true, decide_eq_true_eq, beq_iff_eq] at h
+  have hlen : k.length = 12 := by rw [← lower_length, hk]; rfl
+  have h2 := h.2.2
+  rw [lower_drop, hk, hlen] at h2
+  revert h2; decide
+
+theorem hasBinSuffix_append (pfx k : Bytes) (h : hasBinSuffix k = true) : hasBinSuffix (pfx ++ k) = true := by
+  unfold hasBinSuffix at h ⊢
+  simp only [Bool.and_eq_true, decide_eq_true_eq] at h ⊢
+  have hl : binSuffix.length = 4 := rfl
+  rw [hl] at h ⊢
+  refine ⟨by rw [List.length_append]; omega, ?_⟩
+  have : (pfx ++ k).length - 4 = pfx.length + (k.length - 4) := by rw [List.length_append]; omega
+  rw [this, List.drop_append]
+  have e1 : List.drop (pfx.length + (k.length - 4)) pfx = [] := List.drop_eq_nil_of_le (by omega)
+  have e2 : pfx.length + (k.length - 4) - pfx.length = k.length - 4 := by omega
+  rw [e1, e2, List.nil_append]
+  exact h.2
+
+theorem grpcBin_of_hasBinSuffix (k : Bytes) (h : hasBinSuffix k = true) : grpcBin k = true := by
+  unfold hasBinSuffix at h
+  unfold grpcBin
+  simp only [Bool.and_eq_true, decide_eq_true_eq] at h ⊢
+  exact ⟨by omega, h.2⟩
 
 /-! ### response placement -/
 
